@@ -14,14 +14,25 @@ structure Setup (N : Net) (vals : Vals) (f : Nat) (observe : Nat → Nat → Boo
   vals : ValsOK vals N.nVals N.w
   /-- `observe` is the graph forkless cause -/
   obs : ∀ a b, observe a b = true ↔ N.FC a b
-  /-- `frameRoots g` lists exactly the roots of frame `g`, labelled with their creator, once each -/
-  roots : ∀ g r, r ∈ frameRoots g ↔ (r.frame = g ∧ N.IsRoot r.id g ∧ r.validator = N.creator r.id)
+  /-- `frameRoots g` lists roots of frame `g`, labelled with their creator, once each … -/
+  roots_sound : ∀ g r, r ∈ frameRoots g → (r.frame = g ∧ N.IsRoot r.id g ∧ r.validator = N.creator r.id)
+  /-- … and it lists every root that a listed root forkless-causes (the table may be that of a
+      parents-first prefix of the history: `Setup.ofIff` is the case of the complete table) -/
+  roots_seen : ∀ nr, nr ∈ frameRoots nr.frame → ∀ p g, N.IsRoot p g → N.FC nr.id p →
+    (⟨p, g, N.creator p⟩ : Root) ∈ frameRoots g
   nodup : ∀ g, (frameRoots g).Nodup
   creators : ∀ e, e < N.h.length → N.creator e < N.nVals
   /-- slot uniqueness (conclusion of L2; `Net.slotUnique_of_BFT`) -/
   slots : N.SlotUnique
   accepted : N.FramesAccepted
   fbound : f < 4294967296
+
+/-- the complete table of the roots of `N` satisfies both table hypotheses of `Setup` -/
+theorem roots_seen_of_iff {N : Net} {frameRoots : Nat → List Root}
+    (h : ∀ g r, r ∈ frameRoots g ↔ (r.frame = g ∧ N.IsRoot r.id g ∧ r.validator = N.creator r.id)) :
+    ∀ nr, nr ∈ frameRoots nr.frame → ∀ p g, N.IsRoot p g → N.FC nr.id p →
+      (⟨p, g, N.creator p⟩ : Root) ∈ frameRoots g :=
+  fun _ _ _ g hp _ => (h g _).2 ⟨rfl, hp, rfl⟩
 
 /-- the candidate for subject `s`: a root of its slot in frame `f` forkless-caused by a root of `f+1` -/
 def Cand (N : Net) (f s b : Nat) : Prop :=
@@ -118,35 +129,41 @@ theorem not_decides_one (N : Net) (f R s : Nat) : ¬ (N.DecidesYes f 1 R s ∨ N
 section Seen
 variable {N : Net} {vals : Vals} {f : Nat} {observe : Nat → Nat → Bool} {frameRoots : Nat → List Root}
 
-theorem seen_mem (S : Setup N vals f observe frameRoots) (nr r : Root) :
+theorem seen_mem (S : Setup N vals f observe frameRoots) (nr : Root) (hroot : nr ∈ frameRoots nr.frame) (r : Root) :
     r ∈ seenRoots observe frameRoots nr ↔
       r.frame = Gen.Election.prevFrame nr.frame ∧ N.IsRoot r.id (Gen.Election.prevFrame nr.frame) ∧
       r.validator = N.creator r.id ∧ N.FC nr.id r.id := by
   unfold seenRoots
-  rw [List.mem_filter, S.roots, S.obs]
+  rw [List.mem_filter, S.obs]
   constructor
-  · rintro ⟨⟨a, b, c⟩, d⟩; exact ⟨a, b, c, d⟩
-  · rintro ⟨a, b, c, d⟩; exact ⟨⟨a, b, c⟩, d⟩
+  · rintro ⟨h, d⟩
+    obtain ⟨a, b, c⟩ := S.roots_sound _ r h
+    exact ⟨a, b, c, d⟩
+  · rintro ⟨a, b, c, d⟩
+    have := S.roots_seen nr hroot r.id _ b d
+    rw [← c, ← a] at this
+    exact ⟨by rw [← a]; exact this, d⟩
 
-theorem seen_set_iff (S : Setup N vals f observe frameRoots) (nr : Root) (Yp : Nat → Prop) (i : Nat) :
+theorem seen_set_iff (S : Setup N vals f observe frameRoots) (nr : Root) (hroot : nr ∈ frameRoots nr.frame)
+    (Yp : Nat → Prop) (i : Nat) :
     (∃ r ∈ seenRoots observe frameRoots nr, r.validator = i ∧ Yp r.id) ↔
       ∃ p, N.IsRoot p (Gen.Election.prevFrame nr.frame) ∧ N.creator p = i ∧ N.FC nr.id p ∧ Yp p := by
   constructor
   · rintro ⟨r, hr, hv, hy⟩
-    obtain ⟨_, b, c, d⟩ := (seen_mem S nr r).1 hr
+    obtain ⟨_, b, c, d⟩ := (seen_mem S nr hroot r).1 hr
     exact ⟨r.id, b, by rw [← c]; exact hv, d, hy⟩
   · rintro ⟨p, b, c, d, hy⟩
-    exact ⟨⟨p, Gen.Election.prevFrame nr.frame, N.creator p⟩, (seen_mem S nr _).2 ⟨rfl, b, rfl, d⟩, c, hy⟩
+    exact ⟨⟨p, Gen.Election.prevFrame nr.frame, N.creator p⟩, (seen_mem S nr hroot _).2 ⟨rfl, b, rfl, d⟩, c, hy⟩
 
-theorem seen_validators_nodup (S : Setup N vals f observe frameRoots) (nr : Root) :
+theorem seen_validators_nodup (S : Setup N vals f observe frameRoots) (nr : Root) (hroot : nr ∈ frameRoots nr.frame) :
     ((seenRoots observe frameRoots nr).map (·.validator)).Nodup := by
   have hnd : (seenRoots observe frameRoots nr).Nodup := List.Pairwise.filter _ (S.nodup _)
   unfold List.Nodup at *
   rw [List.pairwise_map]
   refine List.Pairwise.imp_of_mem ?_ hnd
   intro a b ha hb hne heq
-  obtain ⟨a1, a2, a3, a4⟩ := (seen_mem S nr a).1 ha
-  obtain ⟨b1, b2, b3, b4⟩ := (seen_mem S nr b).1 hb
+  obtain ⟨a1, a2, a3, a4⟩ := (seen_mem S nr hroot a).1 ha
+  obtain ⟨b1, b2, b3, b4⟩ := (seen_mem S nr hroot b).1 hb
   have hid : a.id = b.id := S.slots _ a.id b.id nr.id nr.id a2 b2 (by rw [← a3, ← b3]; exact heq) a4 b4
   apply hne
   cases a; cases b
@@ -155,7 +172,8 @@ theorem seen_validators_nodup (S : Setup N vals f observe frameRoots) (nr : Root
   exact ⟨hid, a1.trans b1.symm, heq⟩
 
 /-- first-round votes -/
-theorem first_vote_facts (S : Setup N vals f observe frameRoots) (nr : Root) (hnr : N.IsRoot nr.id (f + 1))
+theorem first_vote_facts (S : Setup N vals f observe frameRoots) (nr : Root) (hroot : nr ∈ frameRoots nr.frame)
+    (hnr : N.IsRoot nr.id (f + 1))
     (hprev : Gen.Election.prevFrame nr.frame = f) (s : Nat) :
     VF N f 1 nr.id s (firstVote (seenMap (seenRoots observe frameRoots nr)) s) := by
   have sound : ∀ r, (seenMap (seenRoots observe frameRoots nr)).lookup s = some r →
@@ -165,7 +183,7 @@ theorem first_vote_facts (S : Setup N vals f observe frameRoots) (nr : Root) (hn
     obtain ⟨h1, h2⟩ := seenMap_sound (seenRoots observe frameRoots nr) []
       (fun k r => r ∈ seenRoots observe frameRoots nr ∧ r.validator = k)
       (by intro x hx; cases hx) (fun r hr => ⟨hr, rfl⟩) (s, r) hm
-    obtain ⟨_, b, c, d⟩ := (seen_mem S nr r).1 h1
+    obtain ⟨_, b, c, d⟩ := (seen_mem S nr hroot r).1 h1
     rw [hprev] at b
     exact ⟨b, by rw [← c]; exact h2, d⟩
   cases hl : (seenMap (seenRoots observe frameRoots nr)).lookup s with
@@ -189,7 +207,7 @@ theorem first_vote_facts (S : Setup N vals f observe frameRoots) (nr : Root) (hn
     rintro ⟨b, hb, hc, hfc⟩
     exfalso
     have hm : (⟨b, f, s⟩ : Root) ∈ seenRoots observe frameRoots nr :=
-      (seen_mem S nr _).2 ⟨hprev.symm, by rw [hprev]; exact hb, hc.symm, hfc⟩
+      (seen_mem S nr hroot _).2 ⟨hprev.symm, by rw [hprev]; exact hb, hc.symm, hfc⟩
     have hk := (seenMap_keys (seenRoots observe frameRoots nr) []).2 _ hm
     obtain ⟨v, hv⟩ := lookup_isSome_of_key _ _ hk
     have hv' : (seenMap (seenRoots observe frameRoots nr)).lookup s = some v := hv
@@ -201,7 +219,7 @@ variable {N : Net} {vals : Vals} {f : Nat} {observe : Nat → Nat → Bool} {fra
 
 /-- later-round votes: the tally finishes, sees a quorum, and the vote is the one of the rules -/
 theorem later_vote_facts (S : Setup N vals f observe frameRoots) {el : Election} (js : JS N vals f frameRoots el)
-    (nr : Root) (j : Nat) (hj : 1 ≤ j) (hnr : N.IsRoot nr.id (f + (j + 1)))
+    (nr : Root) (hroot : nr ∈ frameRoots nr.frame) (j : Nat) (hj : 1 ≤ j) (hnr : N.IsRoot nr.id (f + (j + 1)))
     (hprev : Gen.Election.prevFrame nr.frame = f + j) (s : Nat)
     (hstored : ∀ r ∈ seenRoots observe frameRoots nr, ∃ vote, el.votes.lookup (r, s) = some vote) :
     ∃ t, tally el s (seenRoots observe frameRoots nr) (tally0 el) = .ok t ∧
@@ -211,7 +229,7 @@ theorem later_vote_facts (S : Setup N vals f observe frameRoots) {el : Election}
       ∃ vote, el.votes.lookup (r, s) = some vote ∧ (vote.yes = true ↔ N.voteYes f j r.id s) ∧
         (vote.yes = true → Cand N f s vote.observedRoot) := by
     intro r hr
-    obtain ⟨a, b, c, _⟩ := (seen_mem S nr r).1 hr
+    obtain ⟨a, b, c, _⟩ := (seen_mem S nr hroot r).1 hr
     obtain ⟨vote, hl⟩ := hstored r hr
     obtain ⟨_, _, _, v4, v5⟩ := js.votes r s vote (lookup_mem _ _ _ hl)
     have e : r.frame - f = j := by rw [a, hprev]; omega
@@ -220,25 +238,25 @@ theorem later_vote_facts (S : Setup N vals f observe frameRoots) {el : Election}
   obtain ⟨t, ht, ts⟩ := tally_spec ok (Cand N f s) (fun b b' h h' => Cand.unique S.slots h h')
     (fun r => N.voteYes f j r.id s) s (seenRoots observe frameRoots nr) (tally0 el)
     (fun _ => False) (fun _ => False) (fun _ => False)
-    ⟨CSet.new _ _, CSet.new _ _, CSet.new _ _, by intro b hb; cases hb⟩ hobs (seen_validators_nodup S nr)
+    ⟨CSet.new _ _, CSet.new _ _, CSet.new _ _, by intro b hb; cases hb⟩ hobs (seen_validators_nodup S nr hroot)
   -- the three sums are the caused weights of the rules
   have hyes : t.yes.sum = N.causedWeight nr.id (f + j) (fun p => N.voteYes f j p s) := by
     rw [ts.yes.sum ok]
     apply N.weightOf_congr
     intro i _
-    rw [← hprev, ← seen_set_iff S nr (fun p => N.voteYes f j p s) i]
+    rw [← hprev, ← seen_set_iff S nr hroot (fun p => N.voteYes f j p s) i]
     exact ⟨fun h => h.resolve_left not_false, Or.inr⟩
   have hno : t.no.sum = N.causedWeight nr.id (f + j) (fun p => ¬ N.voteYes f j p s) := by
     rw [ts.no.sum ok]
     apply N.weightOf_congr
     intro i _
-    rw [← hprev, ← seen_set_iff S nr (fun p => ¬ N.voteYes f j p s) i]
+    rw [← hprev, ← seen_set_iff S nr hroot (fun p => ¬ N.voteYes f j p s) i]
     exact ⟨fun h => h.resolve_left not_false, Or.inr⟩
   have hall : t.all.sum = N.causedWeight nr.id (f + j) (fun _ => True) := by
     rw [ts.all.sum ok]
     apply N.weightOf_congr
     intro i _
-    rw [← hprev, ← seen_set_iff S nr (fun _ => True) i]
+    rw [← hprev, ← seen_set_iff S nr hroot (fun _ => True) i]
     constructor
     · rintro (h | ⟨r, hr, hv⟩)
       · exact absurd h not_false
@@ -342,7 +360,7 @@ theorem vote_branch (S : Setup N vals f observe frameRoots) {el : Election} (js 
   have hf := S.fbound
   obtain ⟨hlt, hround, hfirst, hlater, hprev⟩ := round_facts nr.frame el.frameToDecide hb (by rw [js.ftd]; exact hf) hs
   rw [js.ftd] at hlt hfirst hlater
-  have hnrRoot : N.IsRoot nr.id nr.frame := ((S.roots _ nr).1 hroot).2.1
+  have hnrRoot : N.IsRoot nr.id nr.frame := (S.roots_sound _ nr hroot).2.1
   by_cases hfr : Gen.Election.firstRound (Gen.Election.round nr.frame el.frameToDecide) = true
   · -- round 1
     have hp := hfirst (by rw [← js.ftd]; exact hfr)
@@ -353,7 +371,7 @@ theorem vote_branch (S : Setup N vals f observe frameRoots) {el : Election} (js 
     · exact voteLoop_eq_pushAll el nr _ _ _ _ _ (fun _ s _ => hvf s) (fun h => by rw [hfr] at h; cases h) el
     · intro s _
       rw [hvf s, show nr.frame - f = 1 by omega]
-      exact first_vote_facts S nr (by rw [← hk]; exact hnrRoot) hp s
+      exact first_vote_facts S nr hroot (by rw [← hk]; exact hnrRoot) hp s
   · -- later rounds
     have hfr' : Gen.Election.firstRound (Gen.Election.round nr.frame el.frameToDecide) = false := by simpa using hfr
     have h2 := hlater (by rw [← js.ftd]; exact hfr')
@@ -363,9 +381,9 @@ theorem vote_branch (S : Setup N vals f observe frameRoots) {el : Election} (js 
     have facts : ∀ s ∈ notDecided el, ∃ t, tally el s (seenRoots observe frameRoots nr) (tally0 el) = .ok t ∧
         Gen.Election.notEnoughVotes (hasQuorum el.vals t.all) = false ∧ VF N f (j + 1) nr.id s (roundVote el t) := by
       intro s hs
-      apply later_vote_facts S js nr j hj1 (by rw [← hj]; exact hnrRoot) hp s
+      apply later_vote_facts S js nr hroot j hj1 (by rw [← hj]; exact hnrRoot) hp s
       intro r hr
-      obtain ⟨a, _, _, _⟩ := (seen_mem S nr r).1 hr
+      obtain ⟨a, _, _, _⟩ := (seen_mem S nr hroot r).1 hr
       obtain ⟨h1, h2⟩ := List.mem_filter.1 hr
       rw [hprev] at h1
       exact hst r (hclosed r h1 (by rw [a, hp]; omega) h2) (by rw [a, hp]; omega) s hs
